@@ -67,6 +67,13 @@ Inv_C02_Reparse ==
         /\ p.st = "done" /\ m.st = "done"
         /\ m.cur = Len(p.out)
         /\ m.result.vals = V
+\* positioned declarations: whenever pack succeeds on a well-typed assignment, the output re-parses to it
+\* (bytes of one field never land on another field's bytes)
+AllWellTyped == \A i \in 1..Len(dd.prog[dd.root].fields) :
+                    LET f == dd.prog[dd.root].fields[i] IN
+                    f.k \in {"Em", "Move"} \/ WellTyped(dd.prog, f, Lookup(V, f.name))
+Inv_C02_PosReparse ==
+    (Terminal /\ AllWellTyped /\ p.st = "done" /\ m.st = "done") => m.result.vals = V
 \* C02 / C19: the bytes are the in-order concatenation of the encodings of the (constructed) values
 Inv_C02_Layout ==
     (Terminal /\ Consistent /\ Plain) => p.out = Layout(dd.prog, dd.root, V)
